@@ -31,7 +31,14 @@ class StackSpiller:
         """Set the current function being processed."""
         self._current_function = fn
         if fn is not None and fn in self.ctx.mem_allocator.fn_eom:
-            self._next_spill_offset = self.ctx.mem_allocator.fn_eom[fn]
+            # a function's spill slots must not alias anything that can be
+            # live while it runs: the static frames of its (transitive)
+            # callers -- memory-passed arguments, locals live across the
+            # invoke -- and the callers' own spill slots.  fn_eom[fn] only
+            # covers fn and its callees.  There is no recursion, so give
+            # every function its own spill region above all static frames.
+            base = max(self.ctx.mem_allocator.fn_eom.values())
+            self._next_spill_offset = max(base, self.peak_spill_end)
         else:
             # reset on function exit / unknown fn: a stale offset from the
             # previous function would let a spill land in that function's
